@@ -9,6 +9,9 @@
  O4 uniqueness has a static guarantee on each side; who-may-write
  O5 recorded pairs come from the candidate (overlap) relation
  O6 CLI wiring of -s / -j
+ O7 the increment threshold of match_storms is the rate threshold of
+    classify_interstorms x the step in hours (rises and interstorm
+    intervals share the primary key of zeta_interval)
 """
 
 import ast
@@ -113,6 +116,15 @@ def run(ctx, chk, tier="quick"):
     # ------------------------------------------------------------ O5
     _candidate_defuse(ctx, chk)
 
+    # ------------------------------------------------------------ O7
+    # match_storms works on increments, classify_interstorms on rates: both mean the same jump only if the increment
+    # threshold is the rate threshold x the step in hours.  With another factor a rise can start on samples already
+    # recorded as an interstorm interval, and the second INSERT INTO zeta_interval hits the primary key.
+    from .c03 import jump_delta_obligation
+    try:
+        jump_delta_obligation(ctx, chk, "C01.O7", "a rise and an interstorm interval that share a start sample collide on the primary key of zeta_interval and classification stops with an IntegrityError")
+    except AnalysisError as exc:
+        chk.indeterminate("C01.O7", ("spowtd/classify.py", "match_all_storms", 0), str(exc))
     # ------------------------------------------------------------ O6
     disp, branches = dispatch_branches(ctx)
     opts = task_options(ctx).get("classify", [])
